@@ -27,6 +27,10 @@ const bbCampaign = "bb_predicates"
 const bbDB = "db0"
 const bbT0 = int64(1700000000) * 1e9 // inside one 7-day shard group of the default policy
 
+// C10_BB_NO_EXCLUSION=exact_hint,tag_keys switches the exclusion of a black-box known-finding class off (to validate a
+// candidate fix: the campaign must then pass); C10_NO_EXCLUSIONS=1 switches every exclusion off.
+var bbNoExclusion = os.Getenv("C10_BB_NO_EXCLUSION")
+
 // how long a wrong read is re-run before it counts (tag-filter cache generation is bumped up to 10 s after an index flush)
 var bbGrace = 13 * time.Second
 
@@ -766,7 +770,7 @@ func (w *bbWorld) check(chk *bbCheck) string {
 		}
 	}
 	// known finding: the store builds this listing by cutting the UNESCAPED rendering of every selected series key at ','
-	// and '=' (engine/engine.go handleTagKeys), the coordinator cuts its answer at ',' again (replays/C10/pending/bb_show_tag_keys_where_*.json)
+	// and '=' (engine/engine.go handleTagKeys), the coordinator cuts its answer at ',' again (replays/C10/proposed/bb_show_tag_keys_where_*.json)
 	sepInKey := false
 	for _, r := range sel {
 		for _, t := range r.S.T {
@@ -775,7 +779,7 @@ func (w *bbWorld) check(chk *bbCheck) string {
 			}
 		}
 	}
-	if sepInKey && w.excluded != nil {
+	if sepInKey && w.excluded != nil && !strings.Contains(bbNoExclusion, "tag_keys") {
 		w.excluded("show_tag_keys_where_over_series_with_comma_or_equals_sign")
 	} else if v := w.expect("show_tag_keys_where", "show tag keys from "+qn+where, cmpTagKeys(sel)); v != "" {
 		return v
@@ -815,8 +819,8 @@ func (w *bbWorld) check(chk *bbCheck) string {
 	// (3x)+(4x) listings under the exact-statistics hint: served from the chunk metadata of the FLUSHED files plus a
 	// per-series evaluation of the condition (engine/immutable/show_series.go): only once everything is flushed
 	if allFlushed {
-		if absentTrue && w.excluded != nil {
-			// known finding: that evaluation takes a leaf over an absent tag as false (replays/C10/pending/bb_exact_hint_absent_tag.json)
+		if absentTrue && w.excluded != nil && !strings.Contains(bbNoExclusion, "exact_hint") {
+			// known finding: that evaluation takes a leaf over an absent tag as false (replays/C10/proposed/bb_exact_hint_absent_tag.json)
 			w.excluded("exact_hint_listing_leaf_true_for_absent_tag")
 		} else {
 			hint := "show /*+ Exact_Statistic_Query */ "
